@@ -196,6 +196,11 @@ pub fn cli_repair_disagrees(exe: &std::path::Path, dir: &std::path::Path, input:
     }
 }
 
+/// Repair with an explicit configuration route (see `prog::repair_route`), keys always as given.
+pub fn repair_eval_route(bytes: &[u8], keys: &[usize], unauth: bool, route: usize) -> RepairEval {
+    finish_eval(guard(|| prog::repair_route(bytes, keys, unauth, route)))
+}
+
 /// An in-memory source that hands out at most `cap` bytes per read call (a legal `Read`).
 pub struct CapReader<'a> {
     pub data: &'a [u8],
